@@ -1,22 +1,22 @@
 CONSTANTS
-  MaxId = 3
+  MaxId = 1
   ZeroIncBug = FALSE
   OpenRaceBug = FALSE
   W = 1
   B = 1
-  Openers = {0}
-  MaxWrite = 1
+  Openers = {}
+  MaxWrite = 2
   MaxRead = 1
-  Budget = 7
+  Budget = 5
   WireCap = 3
   DoExport = TRUE
   DeadlineBug = "none"
-  Acts = {"open","accept","cancel","write","read","cw","close"}
-  Modes = {}
-  DlEnds = {0, 1}
-  PreEst = FALSE
+  Acts = {"wstart","rstart","setwd","setrd","write","read"}
+  Modes = {"clear","past","far","soon"}
+  DlEnds = {0}
+  PreEst = TRUE
   BlockOnRoom = FALSE
-  TrackKinds = {"zr","rt"}
+  TrackKinds = {"wsp0","wss0","rsp0","rss0","wfollow0","rfollow0"}
 SPECIFICATION Spec
 VIEW view
 INVARIANT InvTokens InvInOrder InvEOFComplete InvNoCrossTalk InvNoViolation InvWindow InvWire Export
